@@ -54,16 +54,23 @@ where
     let scale = AsPrimitive::<F>::as_(free_weight.as_()) / normalization;
 
     let mut cumulative_float = F::zero();
+    let mut scaled_cumulative = Probability::zero();
     let mut accumulated_slack = Probability::zero();
 
     Ok(probabilities.iter().map(move |probability_float| {
+        let left_cumulative = scaled_cumulative + accumulated_slack;
+        cumulative_float = cumulative_float + *probability_float;
         // Rounding errors in the floating point arithmetic (in particular if `F` cannot
         // represent `free_weight` exactly) must not push the scaled cumulative beyond
         // `free_weight`, or else trailing symbols would end up with zero probability (or the
-        // cumulative distribution function would wrap around).
-        let scaled_cumulative: Probability = (cumulative_float * scale).as_();
-        let left_cumulative = scaled_cumulative.min(free_weight) + accumulated_slack;
-        cumulative_float = cumulative_float + *probability_float;
+        // cumulative distribution function would wrap around). Callers store the result
+        // without further validation and later index with it unchecked, so we also don't
+        // rely on the arithmetic of the (possibly user-defined) float type `F` for the fact
+        // that the scaled cumulatives start at zero and never decrease.
+        let next_scaled_cumulative: Probability = (cumulative_float * scale).as_();
+        scaled_cumulative = next_scaled_cumulative
+            .max(scaled_cumulative)
+            .min(free_weight);
         accumulated_slack = accumulated_slack.wrapping_add(&Probability::one());
         left_cumulative
     }))
